@@ -2,12 +2,16 @@ package main
 
 import (
 	"fmt"
-	"os"
+	"go/constant"
 	"go/types"
+	"os"
+	"regexp"
 	"strings"
 
 	"golang.org/x/tools/go/ssa"
 )
+
+var sprintfVerb = regexp.MustCompile(`%[-+# 0-9.*\[\]]*[a-zA-Z%]`)
 
 func (e *Engine) newFT(fn *ssa.Function) *FT {
 	return &FT{e: e, top: fn, occ: map[string]int{}, assumed: map[string]bool{}, inlined: map[string]bool{}, havocked: map[string]bool{}, staticLen: map[string]int{}}
@@ -291,6 +295,63 @@ func (fr *frame) libCall(instr *ssa.Call, callee *ssa.Function, name string, sig
 			}
 		}
 		return reach, false
+	case "slices.Sorted":
+		// idiom slices.Sorted(maps.Keys(m)): a fresh slice holding exactly the
+		// keys of m (each key has a position: witness function)
+		if instr == nil || len(instr.Call.Args) != 1 {
+			return reach, false
+		}
+		kc, ok := instr.Call.Args[0].(*ssa.Call)
+		if !ok {
+			return reach, false
+		}
+		ko := kc.Call.StaticCallee()
+		if ko == nil || ft.e.extName(ko) != "maps.Keys" || len(kc.Call.Args) != 1 {
+			return reach, false
+		}
+		mt, ok := kc.Call.Args[0].Type().Underlying().(*types.Map)
+		if !ok {
+			return reach, false
+		}
+		m := fr.term(kc.Call.Args[0])
+		dom, _, ks, _ := u.mapHeaps(mt)
+		h, es := u.elemHeap(mt.Key())
+		r := ft.newRef(st, "sortedkeys", reach)
+		n := ft.fresh("nkeys", SInt)
+		arr := ft.fresh("keys_arr", arraySort(SInt, es))
+		ft.n++
+		widx := fmt.Sprintf("keyidx!%d", ft.n)
+		fmt.Fprintf(&ft.decls, "(declare-fun %s (%s) Int)\n", widx, ks)
+		d := ft.fresh("keys_dom", arraySort(ks, SBool))
+		ft.assume("true", ite(eq(m.S, "null"), eq(d, fmt.Sprintf("((as const (Array %s Bool)) false)", ks)), eq(d, sel(ft.heapTerm(st, dom), m.S))))
+		ft.assume("true", sx(">=", n, "0"))
+		res := ft.fresh("sortedkeys", SSlice)
+		ft.assume("true", eq(res, ite(eq(n, "0"), "nilslice", sx("mk-slice", r, "0", n, n))))
+		ft.assume("true", fmt.Sprintf("(forall ((i Int)) (! (=> (and (<= 0 i) (< i %s)) (select %s (select %s (ix %s i)))) :pattern ((select %s (ix %s i)))))", n, d, arr, res, arr, res))
+		ft.assume("true", fmt.Sprintf("(forall ((k %s)) (! (=> (select %s k) (and (<= 0 (%s k)) (< (%s k) %s) (= (select %s (ix %s (%s k))) k))) :pattern ((select %s k))))", ks, d, widx, widx, n, arr, res, widx, d))
+		ft.setHeap(st, h, store(ft.heapTerm(st, h), r, arr))
+		fr.setResult(instr, Val{T: Term{res, SSlice}})
+		ft.e.usedExternals["slices.Sorted(maps.Keys(m))"] = "model: fresh slice holding exactly the keys of m"
+		return reach, true
+	case "fmt.Sprintf":
+		// a constant format with literal text yields a non-empty string
+		if instr == nil || len(instr.Call.Args) < 1 {
+			return reach, false
+		}
+		fc, ok := instr.Call.Args[0].(*ssa.Const)
+		if !ok || fc.Value == nil || fc.Value.Kind() != constant.String {
+			return reach, false
+		}
+		lit := sprintfVerb.ReplaceAllString(constant.StringVal(fc.Value), "")
+		if lit == "" {
+			return reach, false
+		}
+		fr.escapeArgs(st, args)
+		r := ft.fresh("sprintf", SStr)
+		ft.assume("true", sx(">", sx("strlen", r), "0"))
+		fr.setResult(instr, Val{T: Term{r, SStr}})
+		ft.e.usedExternals[name] = "fresh-result, non-empty for a format with literal text"
+		return reach, true
 	case "errors.New", "fmt.Errorf":
 		r := ft.newRef(st, "err", reach)
 		ft.assume("true", eq(sx("dyntype", r), fmt.Sprint(u.typeID(types.Universe.Lookup("error").Type())*1000+7)))
